@@ -769,6 +769,9 @@ fn apply_context(
             lookups,
         );
         return Some(());
+    } else {
+        ctx.buffer
+            .unsafe_to_concat(Some(ctx.buffer.idx), Some(match_end));
     }
 
     None
